@@ -2,10 +2,12 @@
    Directives in force: those of ExtrOcamlBasic, ExtrOcamlChar, ExtrOcamlString
    (listed in DESIGN.md section 6); nat/N/Z/positive stay inductive. *)
 From Coq Require Extraction ExtrOcamlBasic ExtrOcamlChar ExtrOcamlString.
-From CV Require Import Model.Base Model.Effector Model.RoleGraph.
+From CV Require Import Model.Base Model.Effector Model.RoleGraph Model.PathMatch Model.Expr Model.Enforce Model.Engine.
 Extraction Blacklist String List Char Bool Nat.
 Set Extraction KeepSingleton.
 Extraction "../extracted/model.ml"
   T teqb
   observe_effector c02_pred new_stream parse_erule
-  lstep lrun answer c03_pred.
+  lstep lrun RoleGraph.answer c03_pred
+  print_expr escape_assertion key_match key_get
+  step ask new_enforcer reload_view count_us m_get_all.
